@@ -140,6 +140,8 @@ pub struct Ctx {
     pub param: u64,
     /// Number of cases *excluded or compared modulo a known finding*.
     pub excluded_known: u32,
+    /// C20 mode (see [`UB_ONLY`])
+    pub ubonly: bool,
 }
 
 impl Ctx {
@@ -154,6 +156,7 @@ impl Ctx {
             tier,
             param,
             excluded_known: 0,
+            ubonly: false,
         }
     }
     #[inline]
@@ -221,9 +224,16 @@ pub fn execute(t: &Target, bytes: &[u8], tracing: bool, tier: u8, param: u64) ->
     execute_opts(t, bytes, tracing, false, tier, param)
 }
 
+/// C20 mode: any target can be run with `--ubonly`. Then only the memory-safety /
+/// wrap-arithmetic class of panics counts; oracle failures and clean panics of the target's
+/// own property are ignored (they are that property's business).
+pub static UB_ONLY: std::sync::atomic::AtomicBool = std::sync::atomic::AtomicBool::new(false);
+
 pub fn execute_opts(t: &Target, bytes: &[u8], tracing: bool, echo: bool, tier: u8, param: u64) -> Executed {
+    let ubonly = UB_ONLY.load(std::sync::atomic::Ordering::Relaxed);
     let mut ctx = Ctx::new(tracing, tier, param);
     ctx.echo = echo;
+    ctx.ubonly = ubonly;
     let mut src = Src::new(bytes);
     let res = {
         let ctx_ref = &mut ctx;
@@ -235,12 +245,19 @@ pub fn execute_opts(t: &Target, bytes: &[u8], tracing: bool, echo: bool, tier: u
             Some(why) => Outcome::Discard(why.to_string()),
             None => Outcome::Pass,
         },
-        Ok(Err(fail)) => Outcome::Violation(fail),
+        Ok(Err(fail)) => {
+            if ubonly && !fail.sig.contains("panic/ub/") {
+                ctx.labels.insert("oracle_failure_ignored_in_ub_only_mode", 1);
+                Outcome::Pass
+            } else {
+                Outcome::Violation(fail)
+            }
+        }
         Err(p) => match p.origin {
             PanicOrigin::Harness => Outcome::HarnessBug(p.render()),
             PanicOrigin::Dependency => Outcome::Discard(format!("dep_panic:{}", p.file_short())),
             PanicOrigin::Repo | PanicOrigin::Std => {
-                if p.class == PanicClass::Clean && t.policy == PanicPolicy::CleanAllowed {
+                if p.class == PanicClass::Clean && (t.policy == PanicPolicy::CleanAllowed || ubonly) {
                     ctx.labels.insert("clean_panic_accepted", 1);
                     Outcome::Pass
                 } else {
